@@ -345,7 +345,7 @@ fn main() {
                                 exec::run(scn, src, record_ops, quarantine).0
                             } else {
                                 let nth = scn.phases.iter().map(|p| p.len()).max().unwrap_or(1) + 1;
-                                let src = Box::new(explore::Pct::new(s, nth, 1 + k % 4, est_len));
+                                let src = Box::new(explore::Pct::new(s, nth, 1 + k % 6, est_len));
                                 exec::run(scn, src, record_ops, quarantine).0
                             };
                             sink.put(scn, &res, &json!({"mode":mode,"seed":s}));
